@@ -285,7 +285,8 @@ type tok struct {
 }
 
 type namer struct {
-	pubs map[string]crypto.PublicKey // raw id -> public key (every key ever seen in this case)
+	pubs    map[string]crypto.PublicKey // raw id -> public key (every key ever seen in this case)
+	signers map[[32]byte]string         // certificate (hash of its DER) -> raw id of the key that signed it
 }
 
 func spkiID(pub crypto.PublicKey) string {
@@ -323,6 +324,18 @@ func (n *namer) learnBlob(v []byte) {
 }
 
 func (n *namer) signerOf(c *x509.Certificate) (string, bool) {
+	h := sha256.Sum256(c.Raw)
+	if id, ok := n.signers[h]; ok {
+		return id, true
+	}
+	id, ok := n.findSigner(c)
+	if ok {
+		n.signers[h] = id
+	}
+	return id, ok
+}
+
+func (n *namer) findSigner(c *x509.Certificate) (string, bool) {
 	ids := make([]string, 0, len(n.pubs))
 	for id := range n.pubs {
 		ids = append(ids, id)
@@ -615,7 +628,7 @@ func runCA(line, hist string) core.Outcome {
 		return core.Outcome{Impl: "bad-op"}
 	}
 	theStore.reset()
-	nm := &namer{pubs: map[string]crypto.PublicKey{}}
+	nm := &namer{pubs: map[string]crypto.PublicKey{}, signers: map[[32]byte]string{}}
 	var o core.Outcome
 	var toks []tok
 	fail := func(class, what string) {
